@@ -3,7 +3,10 @@ let side_s = function Client -> "client" | Server -> "server"
 let dir_s = function Bi -> "bi" | Uni -> "uni"
 let b2 x = if x then "1" else "0"
 let two62 = n_of_string "4611686018427387904"
-let handle ws = match ws with
+let rec handle ws = match ws with
+  | ["vi.decc"; chunks] ->
+      let flat = String.concat "" (List.filter (fun c -> c <> "-") (String.split_on_char '.' chunks)) in
+      handle ["vi.dec"; (if flat = "" then "-" else flat)]
   | ["vi.enc"; x] ->
       let x = n_of_string x in
       let m = (match vi_from_u64 x with
